@@ -1,11 +1,12 @@
 /-
 Text convergence, part 5: the abstraction function `abs : TextSt → Cells` from the block list of
-Model/Text.lean to the character-level state, its basic properties under the invariant `WF`, and
+Model/Text.lean to the character-level state, its basic properties under the invariant `WFg`, and
 "splitting a block = `splitAfter` on cells".
 Core Lean only.
 -/
 import YorkieModel.Lemmas.TextConvSem
 import YorkieModel.Lemmas.TextEdit
+import YorkieModel.Lemmas.TextWFg
 set_option linter.unusedSimpArgs false
 namespace Yorkie.TextConv
 open Yorkie Yorkie.Text
@@ -328,7 +329,7 @@ theorem mem_cids_absNode {n : TNode} {j : Nat} (h1 : n.id.2 ≤ j) (h2 : j < n.i
     (n.id.1, j) ∈ cids (absNode n) := mem_cids_mkCells h1 h2
 
 /-- under the invariant a cell belongs to exactly one block -/
-theorem block_unique {s : TextSt} (wf : WF s) {n m : TNode} (hn : n ∈ s) (hm : m ∈ s)
+theorem block_unique {s : TextSt} (wf : WFg s) {n m : TNode} (hn : n ∈ s) (hm : m ∈ s)
     {t : Ticket} {j : Nat} (h1 : n.id.1 = t) (h2 : n.id.2 ≤ j) (h3 : j < n.id.2 + n.len)
     (k1 : m.id.1 = t) (k2 : m.id.2 ≤ j) (k3 : j < m.id.2 + m.len) : n = m := by
   apply eq_of_id_eq wf.nodup hn hm
@@ -367,7 +368,7 @@ theorem mem_split {s : TextSt} {n : TNode} (hn : n ∈ s) : ∃ A C, s = A ++ n 
   List.append_of_mem hn
 
 /-- cells of other blocks are neither the anchor nor its successor -/
-theorem map_splitCell_others {s : TextSt} (wf : WF s) {n : TNode} (hn : n ∈ s) {B : TextSt}
+theorem map_splitCell_others {s : TextSt} (wf : WFg s) {n : TNode} (hn : n ∈ s) {B : TextSt}
     (hB : ∀ m ∈ B, m ∈ s ∧ m.id ≠ n.id) {j : Nat} (h1 : n.id.2 ≤ j) (h2 : j + 1 < n.id.2 + n.len) :
     (abs B).map (splitCell (n.id.1, j)) = abs B := by
   rw [List.map_congr_left (g := id)]
@@ -387,7 +388,7 @@ theorem map_splitCell_others {s : TextSt} (wf : WF s) {n : TNode} (hn : n ∈ s)
       exact (hB m hm).2 (by rw [this])
 
 /-- **splitting a block is `splitAfter` on cells** -/
-theorem abs_splitNode {s : TextSt} (wf : WF s) {n : TNode} (hn : n ∈ s) {k : Nat} (h0 : 0 < k)
+theorem abs_splitNode {s : TextSt} (wf : WFg s) {n : TNode} (hn : n ∈ s) {k : Nat} (h0 : 0 < k)
     (hk : k < n.len) : abs (splitNode s n k) = splitAfter (n.id.1, n.id.2 + k - 1) (abs s) := by
   obtain ⟨A, C, hs⟩ := mem_split hn
   have hnd := wf.nodup
